@@ -8,6 +8,8 @@ TV   : compute_features(burst_method='amp') on the corpus, both centrings, the f
        minimum-cycle count), fractions from the recorded mask, labels from rank codes.
 """
 import mc_feat
+import numpy as np
+
 import pipeline
 
 PREFIXES = ['C07.']
@@ -37,11 +39,13 @@ def run(ctx):
         pipeline.run_corpus(ctx, 220, PREFIXES, seed_offset=7, mutate_opts=amp, kinds=['sine_bursts', 'asym', 'powerlaw_osc', 'two_osc', 'clipped', 'zeroed', 'dc_offset', 'quantised'])
         pipeline.run_large(ctx, PREFIXES, 7, 3, 1, mutate_opts=amp)          # beyond small scopes: long cycles, long recordings
         exact_thresholds(ctx, 60)
+        awkward_window_lengths(ctx)
     else:
         mc_feat.run_amp(ctx, 'C07', 8, 4)
         pipeline.run_corpus(ctx, 4000, PREFIXES, seed_offset=7, mutate_opts=amp, max_len=2600)
         pipeline.run_large(ctx, PREFIXES, 7, 12, 6, mutate_opts=amp)          # beyond small scopes: long cycles, long recordings
         exact_thresholds(ctx, 800)
+        awkward_window_lengths(ctx)
 
 
 def exact_thresholds(ctx, n):
@@ -72,6 +76,26 @@ def exact_thresholds(ctx, n):
         chosen.append(c)
     if chosen:
         pipeline.run_corpus(ctx, len(chosen), PREFIXES, label='threshold_equals_an_exact_fraction', cases=chosen)
+
+
+def awkward_window_lengths(ctx):
+    """Fully bursting cycles whose inclusive window has n samples with n * (1 / n) != 1 in binary floating point (49, 98, 103, 107, 161, 187, ...):
+    a fraction computed as count * (1 / n) instead of count / n falls a hair below 1 there and fails burst_fraction_threshold = 1.  Steady
+    oscillations of exactly n - 1 samples per cycle, the real detector (everything above the lower threshold), judged by the exact-fraction clause."""
+    cases = []
+    for j, n_win in enumerate([49, 98, 103, 107, 161, 187, 196, 197]):
+        per = n_win - 1
+        fs = 1000
+        f0 = fs / per
+        t = np.arange(14 * per)
+        x = np.sin(2 * np.pi * t / per + 0.3) + 0.05 * np.sin(2 * np.pi * t / (per * 0.5) + 1.0)
+        q = np.round(x * 1024).astype(np.int64)
+        opts = {'center_extrema': ('peak', 'trough')[j % 2], 'burst_method': 'amp', 'return_samples': True, 'find_extrema_kwargs': None,
+                'threshold_kwargs': {'burst_fraction_threshold': 1.0 if j % 3 else 1, 'min_n_cycles': 1 + j % 3},
+                'burst_kwargs': {'amp_threshes': (0.25, 0.5)}}
+        cases.append({'q': q, 'e': -10, 'sig': q.astype(float) * 2.0 ** -10, 'fs': fs, 'f_range': (round(0.7 * f0, 3), round(1.4 * f0, 3)),
+                      'kind': 'steady oscillation, %d samples per inclusive cycle window' % n_win, 'opts': opts, 'k': 28})
+    pipeline.run_corpus(ctx, len(cases), PREFIXES, label='window_lengths_n_with_n_times_1_over_n_below_1', cases=cases)
 
 
 def replay(ctx, case):
